@@ -251,6 +251,7 @@ impl Prop for C05 {
     }
     fn check(b: &Building, ctx: &mut Ctx) -> CheckResult {
         let comps = parse_sound(b)?;
+        crate::common::label_long(ctx, b);
         check_parse(b, &comps, ctx)?;
         let n = b.n;
         // (d) idempotence
